@@ -1,0 +1,124 @@
+//go:build verif
+// +build verif
+
+// Contracts for package wal (build tag verif only; no executable code).
+package wal
+
+import (
+	uuid "github.com/satori/go.uuid"
+)
+
+var _ uuid.UUID
+
+// ---------------------------------------------------------------------------------------------
+// C06: key layout. An entry key is <16 bytes group id><8 bytes big-endian index>; hard state and snapshot keys are
+// "hs"/"ss" followed by the group id. Proved for every group id and every index (64-bit vectors):
+//   - parseIndex(entryKey(i)) == i                     (round trip: what deleteEntriesUntilIndex / seekEntry rely on)
+//   - the first 16 bytes of an entry key are the bytes of the group id (so a prefix scan bounded by the id sees this group only)
+//   - lengths 24 / 18 / 18
+//@ spec be64(b []byte, o int) uint64 = (uint64(b[o]) << 56) | (uint64(b[o+1]) << 48) | (uint64(b[o+2]) << 40) | (uint64(b[o+3]) << 32) | (uint64(b[o+4]) << 24) | (uint64(b[o+5]) << 16) | (uint64(b[o+6]) << 8) | uint64(b[o+7])
+
+//@ func (*storage/wal.badgerWAL).parseIndex
+//@ props C06
+//@ arith bv
+//@ requires [key] len(key) >= 24
+//@ ensures [C06 index-of-key] ret == be64(key, 16)
+//@ modifies nothing
+
+//@ func (*storage/wal.badgerWAL).entryKey
+//@ props C06
+//@ arith bv
+//@ requires [wal] this != nil
+//@ ensures [C06 entry-key-length] len(ret) == 24 && fresh(ret)
+//@ ensures [C06 entry-key-group] idBytesAt(ret, 0, this.groupId)
+//@ ensures [C06 entry-key-index] be64(ret, 16) == idx
+//@ modifies nothing
+
+//@ func (*storage/wal.badgerWAL).hardStateKey
+//@ props C06
+//@ arith bv
+//@ requires [wal] this != nil
+//@ ensures [C06 hs-key] len(ret) == 18 && fresh(ret) && ret[0] == 104 && ret[1] == 115 && idBytesAt(ret, 2, this.groupId)
+//@ modifies nothing
+
+//@ func (*storage/wal.badgerWAL).snapshotKey
+//@ props C06
+//@ arith bv
+//@ requires [wal] this != nil
+//@ ensures [C06 ss-key] len(ret) == 18 && fresh(ret) && ret[0] == 115 && ret[1] == 115 && idBytesAt(ret, 2, this.groupId)
+//@ modifies nothing
+
+// Isolation of groups in one database, as facts about keys (the prefix scans themselves run inside Badger):
+//  - a key that carries the id bytes of two groups at the same offset belongs to one group (the id bytes determine the id);
+//  - an entry key of one group never equals the hard-state or snapshot key of any group (lengths 24 vs 18), and a hard-state
+//    key never equals a snapshot key (first byte 'h' vs 's').
+//@ lemma sameBytesSameGroup(b []byte, o int, g1 uuid.UUID, g2 uuid.UUID)
+//@ props C06
+//@ arith bv
+//@ requires idBytesAt(b, o, g1) && idBytesAt(b, o, g2)
+//@ ensures g1 == g2
+
+// ---------------------------------------------------------------------------------------------
+// C06: installing a received snapshot. The stored log is deleted BEFORE the marker entry at the snapshot index is written
+// (a batch applies its operations in order, so a deletion queued after the marker would take it away whenever the follower
+// already had an entry at that index), entries of the same Ready are written after the marker, and the cached last index
+// is reset to the snapshot index (the cache must not keep pointing into the deleted log).
+//@ func (*storage/wal.badgerWAL).writeEntries
+//@ props C06
+//@ assume
+//@ modifies * except type badgerWAL.cache; type badgerWAL.db
+//@ func (*storage/wal.badgerWAL).writeHardState
+//@ props C06
+//@ assume
+//@ modifies * except type badgerWAL.cache; type badgerWAL.db
+//@ func (*storage/wal.badgerWAL).writeSnapshot
+//@ props C06
+//@ assume
+//@ modifies * except type badgerWAL.cache; type badgerWAL.db
+//@ func (*storage/wal.badgerWAL).deleteEntriesFromIndex
+//@ props C06
+//@ assume
+//@ modifies * except type badgerWAL.cache; type badgerWAL.db
+//@ func (*github.com/dgraph-io/badger/v2.DB).NewWriteBatch
+//@ props C06
+//@ assume
+//@ ensures [batch] ret != nil
+//@ modifies nothing
+//@ func (*github.com/dgraph-io/badger/v2.WriteBatch).Cancel
+//@ props C06
+//@ assume
+//@ modifies nothing
+//@ func (*github.com/dgraph-io/badger/v2.WriteBatch).Flush
+//@ props C06
+//@ assume
+//@ modifies nothing
+//@ func (*sync.Map).Store
+//@ props C06
+//@ assume
+//@ modifies nothing
+
+//@ func (*storage/wal.badgerWAL).Save
+//@ props C06
+//@ ghost wiped int = 0
+//@ ghost marker int = 0
+//@ ghost cachedLast int = 0
+//@ ghost cachedLastIdx uint64 = 0
+//@ at call badgerWAL).deleteEntriesFromIndex
+//@ requires [C06 wipe-before-marker] marker == 0 && $arg2 == 0
+//@ set wiped = 1
+//@ end
+//@ at call badgerWAL).writeSnapshot
+//@ requires [C06 wipe-before-marker] wiped == 1
+//@ set marker = 1
+//@ end
+//@ at call badgerWAL).writeEntries
+//@ requires [C06 entries-after-marker] snapshot.Metadata.Index == 0 || marker == 1
+//@ end
+//@ at call (*sync.Map).Store
+//@ set cachedLast = 1
+//@ set cachedLastIdx = $arg2.(uint64)
+//@ end
+//@ requires [wal] this != nil && this.db != nil && this.cache != nil
+//@ ensures [C06 cache-last-set] isnil(ret) && snapshot.Metadata.Index != 0 ==> cachedLast == 1
+//@ ensures [C06 cache-last-after-install] isnil(ret) && snapshot.Metadata.Index != 0 ==> cachedLastIdx == snapshot.Metadata.Index
+//@ modifies *
